@@ -177,6 +177,11 @@ func (f *OrefaFile) Read(b []byte) (n int, err error) {
 		return 0, &fs.PathError{Op: op, Path: f.name, Err: fs.ErrClosed}
 	}
 
+	if len(b) == 0 {
+		// a zero-length transfer on an open handle does nothing, as with os.File.
+		return 0, nil
+	}
+
 	nd := f.nd
 	if nd.mode.IsDir() {
 		err = avfs.ErrIsADirectory
@@ -240,6 +245,11 @@ func (f *OrefaFile) ReadAt(b []byte, off int64) (n int, err error) {
 
 	if off < 0 {
 		return 0, &fs.PathError{Op: "readat", Path: f.name, Err: avfs.ErrNegativeOffset}
+	}
+
+	if len(b) == 0 {
+		// a zero-length transfer on an open handle does nothing, as with os.File.
+		return 0, nil
 	}
 
 	if f.openMode&avfs.OpenRead == 0 {
@@ -673,6 +683,11 @@ func (f *OrefaFile) WriteAt(b []byte, off int64) (n int, err error) {
 
 	if off < 0 {
 		return 0, &fs.PathError{Op: "writeat", Path: f.name, Err: avfs.ErrNegativeOffset}
+	}
+
+	if len(b) == 0 {
+		// a zero-length transfer on an open handle does nothing, as with os.File.
+		return 0, nil
 	}
 
 	f.mu.RLock()
